@@ -823,6 +823,9 @@ impl SimRuntime for Rt {
         if me == NO_TID || in_fatal() {
             return;
         }
+        if crate::world::WORLD_HELD.load(Ordering::SeqCst) != 0 {
+            return;
+        }
         let s = sched();
         let mut st = s.st.lock().unwrap();
         if site::class_of(site_id) & (site::CLASS_META_OBJ | site::CLASS_META_RAW) != 0 {
